@@ -146,7 +146,9 @@ func (g *conflictGen) pkg(i, n int, linkPct, dirPct, dropPct, topPct int) confli
 		} else {
 			path = Pick(r, conflictLeafDirs) + "/" + Pick(r, conflictLeafNames)
 		}
-		if used[path] && r.Chance(95) {
+		if used[path] {
+			// one package never ships a path twice (a malformed archive: on tarfs the body of the
+			// first header would be read from the last entry of that name)
 			k--
 			continue
 		}
